@@ -315,6 +315,11 @@ def replay(driver_exe, log, report):
                     j += 1
                 if j < n:
                     dirty = log[j][3]; consumed.add(j)
+                else:
+                    # the record ends inside this pass (the dump was taken while the manager was in it): its fires / kernel
+                    # calls / end marker are missing, so it is not compared; nothing follows it in the record
+                    report["incomplete_tail_pass"] = report.get("incomplete_tail_pass", 0) + 1
+                    break
                 try_floating()
                 # a configuration the manager took during this pass although set_timer's xchg is logged later
                 if taken:
@@ -396,7 +401,7 @@ def replay(driver_exe, log, report):
                     floating.append(i)
             i += 1
         try_floating()
-        if floating:
+        if floating and not report.get("incomplete_tail_pass"):
             probs.append({"key": "trace:latch", "what": "%d latch events (first: timer %d took ds_pending_data %d) never matched the model's ds_pending_data" % (len(floating), log[floating[0]][1], log[floating[0]][3])})
         report["model_commands"] = d.ncmd
     finally:
